@@ -57,7 +57,7 @@ class C04(Prop):
     def model_checks(self, tier):
         big = tier == "thorough"
         c = {"MaxRows": 3 if big else 2, "PredSet": "all", "InsSel": "all" if big else "few", "Devs": set(),
-             "Depth": 5 if big else 4, "MaxFails": 0}
+             "Depth": 5 if big else 4, "MaxFails": 0, "SampleOneIn": 1}
         out = [dict(name="mc_ideal", consts=c, invariants=["StepInv"], constraint="Bound", view="ViewSt", timeout=1500)]
         for d in ("C04.rowcount_one_when_zero", "C04.comment_status_is_count"):
             out.append(dict(name="mc_" + d.split(".")[1], consts=dict(c, Devs={d}, MaxRows=1, PredSet="atoms", Depth=3, InsSel="few"),
@@ -66,7 +66,7 @@ class C04(Prop):
 
     def generations(self, tier, seed):
         big = tier == "thorough"
-        base = {"Devs": set(), "MaxFails": 0}
+        base = {"Devs": set(), "MaxFails": 0, "SampleOneIn": 1}
         g = [
             dict(name="edges", mode="edges", sample=None if big else 4000,
                  consts=dict(base, MaxRows=2, PredSet="atoms", InsSel="few", Depth=4)),
